@@ -24,6 +24,7 @@ func init() {
 			"(VALIDATE-COMPLETE/CHECKSUM-COVERAGE) a header is accepted only with magic, version and a checksum that covers every field. " +
 			"Not decided: which subset of unsynced writes survives a crash, torn header bytes, truncate arithmetic, that vfs.File.Sync makes data durable.",
 		run: func(p *Program, rep *Report, tier string) {
+			g(rep, "SYNC-COVERS-BATCH", func() { ruleSYNCCOVERSBATCH(p, rep) })
 			g(rep, "REGION-CODEC", func() { ruleREGIONCODEC(p, rep) })
 			g(rep, "ORDER", func() { ruleORDER(p, rep, orderSet("ORDER", "SLOT", "FINALIZE", "WHO-MAY-SWITCH")) })
 			g(rep, "SHADOW", func() { ruleSHADOW(p, rep) })
@@ -63,6 +64,7 @@ func init() {
 			g(rep, "WAL-RELEASE-ON-FREE", func() { ruleWALRELEASEONFREE(p, rep) })
 			g(rep, "CHECKPOINT-COMPLETE", func() { ruleCHECKPOINTCOMPLETE(p, rep) })
 			g(rep, "READ-LOCATION", func() { ruleREADLOCATION(p, rep) })
+			g(rep, "ORDER", func() { ruleORDER(p, rep, orderSet("ORDER")) })
 		},
 	})
 	register(&propertyDef{
@@ -71,6 +73,7 @@ func init() {
 			"(INV-FL) every end-marker store preserves 'free regions lie below the end marker'; (PAGE-BOUNDS) Tx.getPage creates/looks up a page only under id ≥ 2, id < end marker, not freed; (WAL-RELEASE-ON-FREE). " +
 			"Not decided: arithmetic of region splitting/merging, meta-area growth sizes, exactness of the partition.",
 		run: func(p *Program, rep *Report, tier string) {
+			g(rep, "FILE-END-AGREE", func() { ruleFILEENDAGREE(p, rep) })
 			g(rep, "DEFERFREE", func() { ruleDEFERFREE(p, rep) })
 			g(rep, "ALLOC-RECORDED", func() { ruleALLOCRECORDED(p, rep) })
 			g(rep, "INV-FL", func() { ruleINVFL(p, rep) })
@@ -118,7 +121,12 @@ func init() {
 		run: func(p *Program, rep *Report, tier string) {
 			g(rep, "ERRDISC", func() { ruleERRDISC(p, rep, "", false) })
 			g(rep, "ERRDISC", func() { ruleERRDISC(p, rep, "pq", true) })
-			g(rep, "ORDER", func() { ruleORDER(p, rep, orderSet("COMMIT-ERROR-PATH", "COMMITPOINT")) })
+			g(rep, "ORDER", func() { ruleORDER(p, rep, orderSet("ORDER", "COMMIT-ERROR-PATH", "COMMITPOINT")) })
+			g(rep, "LOCKS", func() {
+				ruleLOCKS(p, rep, func(r lockRoot) bool {
+					return strings.HasPrefix(r.name, "Tx.Commit[tx(") || strings.HasPrefix(r.name, "Tx.Rollback[tx(") || strings.HasPrefix(r.name, "Tx.Close[tx(")
+				}, false)
+			})
 			g(rep, "LIFECYCLE", func() { ruleLIFECYCLE(p, rep, "tx-finished") })
 			g(rep, "STICKY", func() { ruleSTICKYAI(p, rep); ruleSTICKYSSA(p, rep) })
 		},
@@ -205,6 +213,7 @@ func init() {
 		explain: "Decides the method × lifecycle-state matrix abstractly: for every exported method of Tx, Page, Writer, Reader, Queue and every scenario that makes the call invalid (transaction finished, read-only, page freed/flushed/dirty/new-without-buffer, writer/reader/queue closed, reader without transaction) — " +
 			"no definite nil dereference, every return carries a non-nil error, no lock/writer/shared-state effect; plus (PAGE-BOUNDS) out-of-range and freed pages are rejected before any page object is created, (SETBYTES-BOUND) oversize contents are rejected before the buffer is touched. Not decided: ACK-too-many arithmetic, error kinds through wrapping.",
 		run: func(p *Program, rep *Report, tier string) {
+			g(rep, "ACK-BOUND", func() { ruleACKBOUND(p, rep) })
 			g(rep, "LIFECYCLE", func() { ruleLIFECYCLE(p, rep, "") })
 			g(rep, "PAGE-BOUNDS", func() { rulePAGEBOUNDS(p, rep) })
 			g(rep, "TOMBSTONE", func() { ruleTOMBSTONE(p, rep) })
